@@ -221,7 +221,7 @@ pub fn probes(seed: u64, n: usize) -> Vec<Probe> {
 
 pub fn run(tier: Tier, seed: u64) -> i32 {
     let mut run = Run::new("C16", tier, seed, "exploration");
-    run.rule = "evaluation = one probe (`position X` + `go`) issued after a generated prefix of 1..60 commands in the same session of the real binary (other games with long move lists and repetitions, the probed game itself or truncations of it, zero-slice and timed searches, go chains, ucinewgame, both setoption forms, isready, unknown lines) and compared with a fresh process: zero-allowance probes must give the identical bestmove (also when repeated in the session); timed probes (5-40 ms) must report a sequence of (depth, nodes, score, first PV move) that is prefix-compatible with the fresh engine's 150 ms run. Pipelined variant: prefix (positions, go chains with plans <= 25 ms, the probed and related games, option line) and the zero-allowance probe (twice) written without waiting for any reply - one write, per line, or pieces that cut lines in two - and compared with the fresh engine's answer. Probes include repetition-sensitive roots (lost side to move behind one or two shuffle cycles) so that a leaked repetition record changes scores. Non-trivial = every probe after a non-empty prefix; distinct by (probe, prefix seed)".into();
+    run.rule = "evaluation = one probe (`position X` + `go`) issued after a generated prefix of 1..60 commands in the same session of the real binary (other games with long move lists and repetitions, the probed game itself or truncations of it, zero-slice and timed searches, go chains, ucinewgame, both setoption forms, isready, unknown lines) and compared with a fresh process: zero-allowance probes must give the identical bestmove (also when repeated in the session); timed probes (5-40 ms) must report a sequence of (depth, nodes, score, first PV move) that is prefix-compatible with the fresh engine's 150 ms run. Pipelined variant: prefix (positions, go chains with plans <= 25 ms, the probed and related games, option line) and the zero-allowance probe (twice) written without waiting for any reply - one write, per line, or pieces that cut lines in two - and compared with the fresh engine's answer. Long sessions: the probed game searched once, then 253..258 / 509..514 (thorough: also about 1024, 4096 and 65536) zero-allowance searches of other positions written in one piece, then the timed and the zero-allowance probe - for state told apart by a small counter or generation number. Probes include repetition-sensitive roots (lost side to move behind one or two shuffle cycles) so that a leaked repetition record changes scores. Non-trivial = every probe after a non-empty prefix; distinct by (probe, prefix seed)".into();
     run.assumptions = vec![
         "an info line printed by the detached search thread just after bestmove belongs to the go that started it; the driver drains for 5 ms and uses isready as the boundary before the next command".into(),
         "fresh-engine references are computed once per probe and reused".into(),
@@ -397,6 +397,117 @@ pub fn run(tier: Tier, seed: u64) -> i32 {
         });
         for a in res {
             run.acc.merge(a, &[]);
+        }
+    }
+    // long sessions: a timed search of the probed game, then a long run of other searches
+    // (N = 253..258, 509..514 and, in the thorough tier, around 1024, 4096 and 65536 zero-allowance
+    // go commands on other positions, written in one piece), then the probe. State that is kept
+    // per process and told apart by a small counter, a generation number or a bounded age only
+    // shows when the number of searches in between hits the counter's period.
+    {
+        let mut counts: Vec<usize> = (253..=258).chain(509..=514).collect();
+        if tier == Tier::Thorough {
+            counts.extend((1021..=1026).chain(4093..=4098).chain(65533..=65538));
+        }
+        let timed: Vec<usize> = (0..prs.len()).filter(|i| prs[*i].timed && matches!(&refs[*i], Ok(r) if r.long_seq.len() >= 2)).collect();
+        if !timed.is_empty() {
+            let res = run_parallel(16, counts.len(), |ci| {
+                let mut acc = Acc::new();
+                let n = counts[ci];
+                let mut rng = Rng::stream(seed, 0xC16_A000 + ci as u64);
+                let idx = timed[rng.below(timed.len() as u64) as usize];
+                let probe = &prs[idx];
+                let reference = match &refs[idx] {
+                    Ok(r) => r,
+                    Err(_) => return acc,
+                };
+                let mut s = match Sess::start(&plain, SpawnOpts::default(), false) {
+                    Ok(s) => s,
+                    Err(e) => {
+                        acc.inconclusive.push(format!("session start failed: {}", e));
+                        return acc;
+                    }
+                };
+                // the earlier search of the probed game (a generous slice, so that whatever it
+                // leaves behind covers the tree the probe will walk)
+                s.position(&probe.hist);
+                let mut g = s.go(&timed_args(probe.hist.end.stm, 80), WATCHDOG);
+                if g.bestmove.is_none() {
+                    acc.inconclusive.push("long session: first search not answered".into());
+                    return acc;
+                }
+                s.settle(&mut g, WATCHDOG);
+                if rng.chance(1, 2) {
+                    s.eng.send("ucinewgame");
+                }
+                // n searches of other positions, written in pieces of at most 200 commands
+                let fill: Vec<String> = (0..4).map(|_| roots[rng.below(roots.len() as u64) as usize].clone()).filter(|h| has_legal_move(&h.end) && h.moves.len() <= 40).map(|h| h.command()).collect();
+                let fill = if fill.is_empty() { vec!["position startpos moves d2d4".to_string()] } else { fill };
+                let mark = s.eng.transcript.len();
+                let mut left = n;
+                while left > 0 {
+                    let k = left.min(200);
+                    let mut text = String::new();
+                    for j in 0..k {
+                        text.push_str(&fill[(left + j) % fill.len()]);
+                        text.push_str("\ngo\n");
+                    }
+                    s.eng.send_raw(text.as_bytes());
+                    left -= k;
+                    if !s.isready(Duration::from_secs(30)) {
+                        acc.inconclusive.push("long session: filler searches not answered within 30 s".into());
+                        return acc;
+                    }
+                }
+                let answered = s.eng.transcript[mark..].iter().filter(|e| e.dir == Dir::Out && e.line.starts_with("bestmove")).count();
+                if answered != n {
+                    acc.inconclusive.push(format!("long session: {} answers for {} filler searches", answered, n));
+                    return acc;
+                }
+                // the probe: timed, then zero allowance
+                s.position(&probe.hist);
+                let ms = 10 + rng.below(31) as u32;
+                let mut g = s.go(&timed_args(probe.hist.end.stm, ms), WATCHDOG);
+                if g.bestmove.is_none() {
+                    acc.inconclusive.push("long session: probe not answered".into());
+                    return acc;
+                }
+                s.settle(&mut g, WATCHDOG);
+                acc.evaluations += 1;
+                acc.count("long_session_filler_searches", n as u64);
+                acc.feature("timed_probe_after_hundreds_of_searches");
+                if n > 60000 {
+                    acc.feature("timed_probe_after_65536_searches");
+                }
+                acc.distinct.insert(hash64(&format!("long|{}|{}", probe.hist.command(), n)));
+                let seq = info_seq(&g.info_lines);
+                let script: Vec<String> = if n <= 1100 { s.eng.transcript.iter().filter(|e| e.dir == Dir::Sent).flat_map(|e| e.line.split('\n').map(|x| x.to_string()).collect::<Vec<_>>()).filter(|l| !l.is_empty()).collect() } else { vec![] };
+                if !prefix_compatible(&seq, &reference.long_seq) {
+                    let at = seq.iter().zip(reference.long_seq.iter()).position(|(a, b)| a != b).unwrap_or(0);
+                    acc.violation(
+                        format!("C16|timed-long|{}|{}", n, probe.hist.command()),
+                        format!("timed probe '{}' ({} ms), searched once before and then again after {} searches of other positions in the same session, reports {:?} at line {} where a fresh engine reports {:?}", truncate(&probe.hist.command(), 160), ms, n, seq.get(at), at + 1, reference.long_seq.get(at)),
+                        json!({"kind": "session", "property": "C16", "script": script, "long_session": {"first": [probe.hist.command(), format!("go {}", timed_args(probe.hist.end.stm, 80))], "filler_positions": fill, "filler_searches": n, "probe_ms": ms}, "probe": probe.hist.command(), "session_lines": seq, "fresh_lines": reference.long_seq}),
+                    );
+                }
+                s.position(&probe.hist);
+                let mut g = s.go("", WATCHDOG);
+                if let Some((bm, _)) = g.bestmove.clone() {
+                    s.settle(&mut g, WATCHDOG);
+                    acc.evaluations += 1;
+                    if bm != reference.zero_answer {
+                        acc.violation(
+                            format!("C16|zero-long|{}|{}", n, probe.hist.command()),
+                            format!("zero-allowance probe '{}' after {} searches in the same session answered {}, a fresh engine answers {}", truncate(&probe.hist.command(), 160), n + 2, bm, reference.zero_answer),
+                            json!({"kind": "session", "property": "C16", "long_session": {"filler_positions": fill, "filler_searches": n}, "probe": probe.hist.command(), "fresh_answer": reference.zero_answer}),
+                        );
+                    }
+                }
+                acc
+            });
+            for a in res {
+                run.acc.merge(a, &[]);
+            }
         }
     }
     run.set("probes", json!(prs.len()));
